@@ -3,6 +3,7 @@ CONSTANTS
   Configs <- StreamConfigs
   Fixed = TRUE
   AllowForeignClose = FALSE
+  AllowCancel = TRUE
 VIEW View
 INVARIANT PacketBoundary
 INVARIANT NoStaleOutput
